@@ -238,6 +238,10 @@ class CkptFamily(common.Family):
     return {
         'spec': spec, 'level': level, 'kind': kind, 'shards': shards,
         'files': files, 'poison': poison, 'reshard': reshard,
+        # the source either skips unreadable records itself, or raises and the
+        # consumer catches the error and goes on with the same iterator
+        'poison_mode': ('raise' if poison and level == 'source' and
+                        rng.random() < 0.5 else 'skip'),
         # a second crash before any new checkpoint: the same loaded state
         # object is used for a second restore
         'reuse': rng.choice([0, 0, 0, 1, 2]),
@@ -250,7 +254,7 @@ class CkptFamily(common.Family):
   # ------------------------------------------------------------------------
   def _source(self, cfg, tracked):
     from ml_metrics._src.chainables import io
-    skip = bool(cfg.get('poison'))
+    skip = bool(cfg.get('poison')) and cfg.get('poison_mode') != 'raise'
     if cfg['kind'] == 'seq':
       ds = io.SequenceDataSource(tracked, ignore_error=skip)
       for i, k in cfg['shards']:
@@ -294,6 +298,8 @@ class CkptFamily(common.Family):
           'multi': lambda: poisoned(TrackedFiles(data, cfg['files'])),
           'iter': lambda: TrackedIterable(data)}[cfg['kind']]
 
+    raising = cfg.get('poison_mode') == 'raise'
+
     def drain(it_):
       """Rest of the stream and the value its StopIteration carries."""
       out_ = []
@@ -304,6 +310,10 @@ class CkptFamily(common.Family):
           val = e.value
           return out_, [type(val).__name__, pipes.norm_result(
               getattr(val, 'agg_result', None))]
+        except ValueError:
+          if not raising:
+            raise
+          sim.count('fault:read_error_caught_by_consumer')
 
     it = self._make_iter(ref_cfg, mk())
     ref, ref_stop = drain(it)
@@ -322,6 +332,10 @@ class CkptFamily(common.Family):
         except StopIteration:
           exhausted = True
           break
+        except ValueError:
+          if not raising:
+            raise
+          sim.count('fault:read_error_caught_by_consumer')
       segments.append(seg)
       if exhausted:
         break
@@ -339,6 +353,9 @@ class CkptFamily(common.Family):
           sim.count('probe:ran_on_after_checkpoint')
         except StopIteration:
           break
+        except ValueError:
+          if not raising:
+            raise
       blob = cloudpickle.dumps(state_obj)
       if hasattr(it, 'maybe_stop') and sim.choose(2, 'o'):
         # half of the crashes are "graceful": the old iterator is stopped;
@@ -372,6 +389,9 @@ class CkptFamily(common.Family):
             next(it)
           except StopIteration:
             break
+          except ValueError:
+            if not raising:
+              raise
         sim.count('fault:second_restore_from_same_state')
         if hasattr(it, 'maybe_stop'):
           try:
